@@ -264,6 +264,26 @@ func VH_Reassembler() {
 	if allowNil {
 		nops = 3
 	}
+	doPush := func(i int) {
+		seq := vU32("seq")
+		typ := vU16("typ")
+		if vParam("plain", 0) != 0 {
+			vAssume(typ == uint16(auparse.AUDIT_SYSCALL)) // a record that neither completes nor bypasses buffering
+		}
+		if window {
+			vAssume(seq-m.base < 1<<24)
+		}
+		if pinned == 1 && i == 0 {
+			vAssume(seq == 0xFFFFFFFF)
+		}
+		if pinned == 2 && i == 1 {
+			vAssume(seq == 0)
+		}
+		msg := &auparse.AuditMessage{RecordType: auparse.AuditMessageType(typ), Sequence: seq}
+		m.notePush(msg, typ, seq)
+		r.PushMessage(msg)
+		m.afterCall(vOpPush)
+	}
 	forcePush := vParam("forcepush", 0)
 	for i := 0; i < k; i++ {
 		op := vOpPush
@@ -272,24 +292,7 @@ func VH_Reassembler() {
 		}
 		switch op {
 		case vOpPush:
-			seq := vU32("seq")
-			typ := vU16("typ")
-			if vParam("plain", 0) != 0 {
-				vAssume(typ == uint16(auparse.AUDIT_SYSCALL)) // a record that neither completes nor bypasses buffering
-			}
-			if window {
-				vAssume(seq-m.base < 1<<24)
-			}
-			if pinned == 1 && i == 0 {
-				vAssume(seq == 0xFFFFFFFF)
-			}
-			if pinned == 2 && i == 1 {
-				vAssume(seq == 0)
-			}
-			msg := &auparse.AuditMessage{RecordType: auparse.AuditMessageType(typ), Sequence: seq}
-			m.notePush(msg, typ, seq)
-			r.PushMessage(msg)
-			m.afterCall(vOpPush)
+			doPush(i)
 		case vOpMaintain:
 			err := r.Maintain()
 			vAssert(err == nil, "C19/maintain-failed-before-close")
@@ -306,6 +309,13 @@ func VH_Reassembler() {
 	for _, in := range m.insts {
 		vAssert(in.delivered, "C01/not-delivered-by-close")
 	}
+	// pushes after Close are not ruled out by the API; whatever they leave behind, the
+	// later Maintain and Close deliver nothing
+	for i := 0; i < vParam("postclose", 0); i++ {
+		m.inClose = false
+		doPush(k + i)
+	}
+	m.inClose = true
 	// after Close: nothing more is delivered, Maintain and Close fail
 	n := m.nDeliveries
 	vAssert(r.Maintain() != nil, "C19/maintain-after-close-succeeded")
